@@ -633,6 +633,9 @@ fn verif_neg_cases() {
 // C10 / C11 glue harness (unit u4)
 mod gr_glue { include!(concat!(env!("VERIF_HX_DIR"), "/daemon/event_gr_hx.rs")); }
 
+// C15, prefix-limit counters of a live session across graceful restart (unit u8)
+mod c15_glue { include!(concat!(env!("VERIF_HX_DIR"), "/daemon/event_c15_hx.rs")); }
+
 // C01 session-level harness (unit u13)
 mod c01 { include!(concat!(env!("VERIF_HX_DIR"), "/daemon/event_c01_hx.rs")); }
 
